@@ -955,6 +955,13 @@ def check_borealis_case(ctx, case, K):
             elif int(round(k)) % 2 != 0:
                 shifted[loop] += 1
                 odd[loop].append(j)
+                # a phase that already is inside the modulator range must not be moved at all
+                w = want % (2 * PI)
+                w = w - 2 * PI if w > PI else w
+                exact = (want == a)            # no correction added: no rounding between the harness and the code
+                if abs(w) < PI / 2 - 1e-9 or (exact and abs(w) <= PI / 2):
+                    ctx.counterexample("borealis:needless-pi-shift", "loop %d bin %d: the compensated phase %r is inside [-pi/2, pi/2] but was moved to %r"
+                                       % (loop, j, w, b), data)
     if case.get("loss"):
         check_realistic_loss(ctx, case, compiled, data)
     # same experiment (a source that stops before its measurement is not a complete experiment: nothing to compare)
@@ -1650,6 +1657,7 @@ def check_direct_utils(ctx, rng):
             sq = rng.choice(["zero", "low", "medium", "high"])
         else:
             sq = rng.choice([0.3, None, "huge"])
+        crop = min(crop, T - 1)          # a job always keeps at least one non-cropped bin
         ga = {"Sgate": sq, "loops": {0: {"Rgate": [0.0] * T, "BSgate": [0.0] * T}}}
         if crop or rng.random() < 0.5:
             ga["crop"] = crop
